@@ -46,6 +46,20 @@ fn order_project(rng: &mut Rng) -> Vec<(String, String)> {
     if rng.chance(1, 2) {
         files.push(("broken".into(), mutate::token_soup(rng, 12)));
     }
+    // once in a while a file with more than a thousand diagnostics (unknown types) plus hash-ordered import warnings
+    if rng.chance(1, 40) {
+        let mut s = String::from("package big;\n");
+        for k in 0..rng.range(5, 12) {
+            s.push_str(&format!("import nope.N{k}; "));
+        }
+        s.push_str("\ninterface Big {\n");
+        let n = rng.range(980, 1100);
+        for k in 0..n {
+            s.push_str(&format!("Nope{k} m{k}();\n"));
+        }
+        s.push('}');
+        files.push(("big".into(), s));
+    }
     // main files: many statements on ONE line
     let n_main = rng.range(1, 3);
     for m in 0..n_main {
